@@ -77,7 +77,8 @@ def r1(ctx):
     ctx.need(len(sp) == 1, f"{f.site()}: np.array_split not found")
     npl = inline(sp[0].args[1], {k: v for k, v in lenv.items() if k == U(sp[0].args[1])})
     own_rows = (f"np.arange({S}.size)[{S}.sample_ids=={sid}]", f"np.flatnonzero({S}.sample_ids=={sid})", f"np.where({S}.sample_ids=={sid})[0]", f"np.nonzero({S}.sample_ids=={sid})[0]")
-    idx = [k for k, v in lenv.items() if U(v).replace(" ", "") in own_rows]
+    from engine.astutil import UC
+    idx = [k for k, v in lenv.items() if UC(v) in [UC(t_) for t_ in own_rows]]
     ok = False
     if idx:
         L = f"len({idx[0]})"
@@ -219,7 +220,8 @@ def r2(ctx):
             m = inline(cs.targets[0].slice, {k: v for k, v in single_defs_loop(lp).items()})
             key = U(uq.args[0]) if isinstance(uq, ast.Call) and call_name(uq) == "np.unique" and U(kwargs(uq).get("axis")) == "0" else None
             ut = U(lp.target.elts[1])
-            ok = key is not None and U(m).replace(" ", "") in (f"({key}=={ut}).all(axis=1)", f"np.all({key}=={ut},axis=1)") \
+            from engine.astutil import UC
+            ok = key is not None and UC(m) in (UC(f"({key}=={ut}).all(axis=1)"), UC(f"np.all({key}=={ut},axis=1)")) \
                 and len([v for v in cs.value.values if isinstance(v, ast.FormattedValue)]) == 1 and U([v for v in cs.value.values if isinstance(v, ast.FormattedValue)][0].value) == U(lp.target.elts[0])
         ctx.check("R2", f"{f.site()}::one-label-per-key", ok, "rows equal to a unique key in all columns get that key's index as label",
                   "plate labels are not assigned per unique (sample, group, group) key with a full-row comparison")
@@ -251,7 +253,9 @@ def r2(ctx):
         if isinstance(val, ast.Call) and attr_tail(val) == "choice":
             pop = inline(val.args[0], lenv)
             pt = U(pop).replace(" ", "")
-            ok = rows.endswith(f".sample_names=={sv}") and f".sample_names=={sv}]" in pt and ".plate_names[" in pt and pt.startswith("np.unique(")
+            # (either orientation of the comparison with the loop's sample)
+            same_sample = lambda t_: t_.endswith(f".sample_names=={sv}") or (t_.startswith(f"{sv}==") and t_.endswith(".sample_names"))
+            ok = same_sample(rows) and (f".sample_names=={sv}]" in pt or (f"[{sv}==" in pt and ".sample_names]" in pt)) and ".plate_names[" in pt and pt.startswith("np.unique(")
             size = arg(val, 1, "size")
             ok = ok and size is not None and U(inline(size, lenv)).replace(" ", "") == f"({rows}).sum()"
     ctx.check("R2", f"{f.site()}::single-agent-rows-same-sample", ok,
@@ -439,7 +443,7 @@ def r3(ctx):
               "min-merge does not pop two minima from a heapified per-sample list and push the merged plate back")
     lt = ctx.fn("data.Plate.__lt__")
     r = returns(lt.node)
-    ctx.check("R3", f"{lt.site()}::orders-by-size", len(r) == 1 and U(r[0].value).replace(" ", "") == f"self.size<{lt.params[1]}.size",
+    ctx.check("R3", f"{lt.site()}::orders-by-size", len(r) == 1 and __import__("engine.astutil", fromlist=["UC"]).UC(r[0].value) == f"self.size<{lt.params[1]}.size",
               "plates are ordered by size", f"Plate.__lt__ returns `{U(r[0].value) if r else None}`: heap minima would not be the smallest plates")
     # stop threshold: break iff a.size + b.size > min_size, before the merge
     wl = [n for n in walk_own(f.node) if isinstance(n, ast.While)]
